@@ -2990,6 +2990,16 @@ impl<'a> Visitor<'a, '_, Error> for JSONValidator<'a> {
             return Ok(());
           }
 
+          // A bareword member key with a repeating occurrence (`* a: int`)
+          // names one key of the object, exactly as it does without one
+          if self.state.is_member_key
+            && token::lookup_ident(ident.ident)
+              .in_standard_prelude()
+              .is_none()
+          {
+            return self.visit_value(&token::Value::TEXT(ident.ident.into()));
+          }
+
           Ok(())
         }
       },
